@@ -430,9 +430,13 @@ func (p *prog) gen() *step {
 		st.invalid = sp.negAt >= 0
 		st.desc = "ReadFrom(" + sp.String() + ")"
 		st.run = func(b buffer) (res string, _ []byte) {
-			rd := sp.reader()
+			rd := sp.readerFor(b)
 			n, err := b.ReadFrom(rd)
-			return fmt.Sprintf("n=%d err=%s srcpos=%d", n, errText(err), rd.pos), nil
+			sib := ""
+			if rd.sib != nil {
+				sib = " sibling=" + fmtBytes(rd.sib.Bytes())
+			}
+			return fmt.Sprintf("n=%d err=%s srcpos=%d%s", n, errText(err), rd.pos, sib), nil
 		}
 	case opWriteTo:
 		sp := p.genSink(L, invalid)
@@ -511,6 +515,12 @@ func (p *prog) genSrc(pk peek, L int, invalid bool) *srcSpec {
 		if r.Intn(2) == 0 {
 			sp.negAt = 0
 		}
+	}
+	if r.Intn(5) == 0 {
+		sp.endKind = 1 + r.Intn(3)
+	}
+	if r.Intn(6) == 0 {
+		sp.nested = true
 	}
 	return sp
 }
